@@ -1,5 +1,6 @@
 """C15 — Operators lift uniformly over functions, streams, patterns, lists, operands; the numeric
 kernels of sc3/base/builtins.py obey their range and inverse laws."""
+import json
 import sys
 from fractions import Fraction
 
@@ -48,6 +49,12 @@ class Check(common.Check):
     LEAN_TARGETS = ['Sc3Verif.C15.Props']
     LEAN_DIRS = ['Sc3Verif/C15']
     THEOREMS = ['Sc3Verif.C15.' + t for t in (
+        # lifting (about Model.lean + the operator table generated from absobject.py)
+        'fn_lift', 'fn_lift_scalar', 'fn_reflected', 'fn_unop_lift', 'fn_narop_lift',
+        'stream_lift', 'stream_ends_with_shorter', 'stream_scalar', 'pattern_lift',
+        'list_lift', 'list_binop_lift', 'list_scalar_lift', 'list_nested_lift', 'operand_lift',
+        'builtin_dispatch', 'builtin_is_dispatch', 'reflected_table_consistent',
+        'comparison_table_consistent', 'reflected_forms', 'reflected_comparison',
         # kernels (about the definitions generated from builtins.py)
         'wrap_in_bounds', 'wrap_int_in_bounds', 'wrap_congruent', 'fold_in_bounds', 'fold_reflects',
         'fold_int_in_bounds', 'wrap2_in_bounds', 'fold2_in_bounds', 'clip_idem', 'clip_bounds',
@@ -212,11 +219,204 @@ class Check(common.Check):
             c['approx'] = True
         return c
 
+
+    # ------------------------------------------------------------------ lifting cases
+    RANDOM_OPS = {'rand', 'rand2', 'linrand', 'bilinrand', 'sum3rand', 'coin', 'rrand', 'exprand',
+                  'xrand', 'xrand2', 'gauss'}
+    SKIP_BI = RANDOM_OPS | {'urshift', 'lg3interp', 'calcfeedback', 'next_power_of_two',
+                            'next_near_power', 'previous_near_power', 'linlin', 'linexp', 'explin',
+                            'expexp', 'lincurve', 'curvelin', 'bilin', 'biexp', 'moddif', 'lcurve',
+                            'gauss_curve', 'snap', 'softround', 'blend'}
+    PY_BIN = ['add', 'sub', 'mul', 'truediv', 'floordiv', 'mod', 'pow', 'lshift', 'rshift', 'and_',
+              'or_', 'xor', 'lt', 'le', 'eq', 'ne', 'gt', 'ge']
+    PY_UN = ['neg', 'pos', 'abs', 'invert', 'round', 'trunc', 'ceil', 'floor']
+    KINDS = ['fn', 'strm', 'pat', 'chan', 'opnd']
+
+    def sym(self, rng):
+        return ['sym', rng.choice('abcdefgh') + str(rng.randint(0, 9))]
+
+    def chan_overrides(self):
+        """methods ChannelList defines itself (UGen conveniences through `_multichannel_perform`),
+        read from the source: for these `chan.m(...)` is not the AbstractSequence hook."""
+        if not hasattr(self, '_chan_over'):
+            import ast
+            tree = ast.parse((common.REPO / 'sc3' / 'synth' / 'ugen.py').read_text())
+            self._chan_over = {m.name for c in tree.body if isinstance(c, ast.ClassDef) and c.name == 'ChannelList'
+                               for m in c.body if isinstance(m, ast.FunctionDef)}
+        return self._chan_over
+
+    def snum(self, rng):
+        return ['num', fnum(rng.randint(-9, 9), True) if rng.random() < 0.5 else fnum(self.dyadic(rng))]
+
+    def seq_of(self, rng, kind, depth, leaf):
+        n = rng.choice([0, 1, 1, 2, 2, 3, 3, 4, 5])
+        items = []
+        for _ in range(n):
+            if depth > 0 and rng.random() < 0.3:
+                items.append(self.seq_of(rng, rng.choice(['list', 'tuple', 'chan', 'list']), depth - 1, leaf))
+            else:
+                items.append(leaf(rng))
+        return [kind, items]
+
+    def operand(self, rng, kind, leaf=None):
+        leaf = leaf or self.sym
+        if kind == 'num':
+            return self.snum(rng)
+        if kind == 'fn':
+            return ['fn' if rng.random() < 0.7 else 'fnc', rng.choice('FGHK')]
+        if kind in ('strm', 'pat'):
+            return [kind, [self.sym(rng) for _ in range(rng.choice([1, 1, 2, 3, 3, 4, 5]))]]
+        if kind == 'opnd':
+            return ['opnd', self.sym(rng)]
+        if kind == 'chan':
+            r = rng.random()
+            if r < 0.25:          # members with their own hooks
+                def lazy(g):
+                    q = g.random()
+                    return ['fn', g.choice('FGHK')] if q < 0.65 else self.sym(g)
+                return self.seq_of(rng, 'chan', 1, lazy)
+            return self.seq_of(rng, 'chan', rng.choice([0, 0, 1, 2]), leaf)
+        raise ValueError(kind)
+
+    def partner(self, rng, kind):
+        """an operand that the model covers on the other side of `kind`"""
+        r = rng.random()
+        if kind == 'fn':
+            return self.operand(rng, 'num' if r < 0.5 else 'fn')
+        if kind in ('strm', 'pat'):
+            return self.operand(rng, 'num' if r < 0.4 else rng.choice(['strm', 'pat']))
+        if kind == 'opnd':
+            return self.operand(rng, 'num' if r < 0.6 else 'opnd')
+        return self.operand(rng, rng.choice(['num', 'num', 'chan', 'chan', 'fn', 'opnd']))
+
+    def gen_lift(self, rng):
+        ops = self.index.get('ops') or []
+        kinds = self.index.get('builtin_kinds') or {}
+        r = rng.random()
+        k = rng.choice(self.KINDS)
+        if r < 0.30:
+            name = rng.choice(self.PY_BIN)
+            if k == 'opnd' and name in ('eq', 'ne'):
+                k = 'chan'
+            a, b = self.operand(rng, k), self.partner(rng, k)
+            side = rng.random()
+            args = [a, b] if side < 0.5 or b[0] in ('fn', 'strm', 'pat', 'chan', 'opnd') and side < 0.7 else [b, a]
+            return {'via': 'pyop', 'name': name, 'args': args}
+        if r < 0.36:
+            return {'via': 'pyop', 'name': rng.choice(self.PY_UN), 'args': [self.operand(rng, k)]}
+        if r < 0.62 and ops:
+            row = rng.choice([o for o in ops if not o['method'].startswith('__')])
+            if k == 'chan' and row['method'] in self.chan_overrides():
+                k = rng.choice(['fn', 'strm', 'pat', 'opnd'])   # ChannelList redefines these (C03's domain)
+            args = [self.operand(rng, k)]
+            nreq = len(row['params']) - len(row['defaults'])
+            n = rng.randint(nreq, len(row['params']))
+            for i in range(n):
+                if row['params'][i] == 'clip':
+                    args.append(['num', 's:' + rng.choice(['minmax', 'min', 'max'])])
+                elif row['hook'] == '_compose_narop':
+                    args.append(self.operand(rng, 'num') if rng.random() < 0.6 or k not in ('fn', 'strm', 'pat')
+                                else self.operand(rng, k))
+                else:
+                    args.append(self.partner(rng, k))
+            return {'via': 'meth', 'name': row['method'], 'args': args}
+        if r < 0.86 and kinds:
+            name = rng.choice(sorted(set(kinds) - self.SKIP_BI))
+            kind = kinds[name]
+            if kind == 'unop':
+                args = [self.operand(rng, k)]
+            elif kind == 'binop':
+                a, b = self.operand(rng, k), self.partner(rng, k)
+                args = [a, b] if rng.random() < 0.5 else [b, a]
+            else:
+                import inspect  # noqa: F401
+                nargs = {'wrap': 2, 'fold': 2, 'clip': 2}.get(name, 2)
+                args = [self.operand(rng, k)] + [self.operand(rng, 'num') for _ in range(nargs)]
+            return {'via': 'bi', 'name': name, 'args': args}
+        fn = rng.choice(['list_unop', 'list_binop', 'list_binop', 'list_binop', 'list_narop'])
+        ns, sel = rng.choice([('operator', 'add'), ('operator', 'sub'), ('bi', 'round'), ('bi', 'mod'),
+                              ('operator', 'lt'), ('bi', 'max')])
+        depth = rng.choice([0, 0, 1, 1, 2, 3])
+
+        def seq(g):
+            return self.seq_of(g, g.choice(['list', 'list', 'tuple', 'chan']), depth, self.sym)
+        if fn == 'list_unop':
+            ns, sel = rng.choice([('operator', 'neg'), ('bi', 'midicps'), ('bi', 'squared')])
+            args = [seq(rng)]
+        elif fn == 'list_binop':
+            a = seq(rng) if rng.random() < 0.85 else self.sym(rng)
+            b = seq(rng) if rng.random() < 0.75 else self.sym(rng)
+            args = [a, b]
+        else:
+            ns, sel = 'bi', rng.choice(['clip', 'wrap', 'fold'])
+            args = [seq(rng), self.sym(rng), self.snum(rng)]
+        return {'via': 'listfn', 'name': fn, 'ns': ns, 'sel': sel, 't': rng.choice(['list', 'tuple', 'chan']),
+                'args': args}
+
+    def numeric_of(self, rng, d, nonzero=False):
+        """the same operand shape with numeric leaves (functions become x -> a x + b)"""
+        k = d[0]
+        if k in ('num', 'sym'):
+            v = rng.choice([1, 2, 3, 5, 7, -2, -3, 4]) if rng.random() < 0.6 else rng.choice([0.5, 1.5, 2.25, -0.75, 3.0, 0])
+            if isinstance(d[1], str) and d[1].startswith('s:'):
+                return d
+            return ['num', fnum(v, isinstance(v, int))]
+        if k in ('fn', 'fnc'):
+            return ['fnn' if k == 'fn' else 'fnnc', fnum(rng.choice([1, 2, 3, -1]), True), fnum(rng.choice([0, 1, 2, 0.5]))]
+        if k in ('strm', 'pat', 'list', 'tuple', 'chan'):
+            return [k, [self.numeric_of(rng, i) for i in d[1]]]
+        if k == 'opnd':
+            return ['opnd', self.numeric_of(rng, d[1])]
+        raise ValueError(d)
+
+    def gen_lift_numeric(self, rng):
+        ops = self.index.get('ops') or []
+        kinds = self.index.get('builtin_kinds') or {}
+        by_method = {o['method']: o for o in ops}
+        for _ in range(50):
+            c = self.gen_lift(rng)
+            if c['via'] == 'listfn':
+                c['numeric'] = True
+            elif c['via'] == 'pyop':
+                name = c['name']
+                if len(c['args']) == 1 and name in ('round', 'trunc'):
+                    c.update(ns='bi', sel=name, defaults=['i:1'])
+                elif len(c['args']) == 1 and name in ('ceil', 'floor'):
+                    c.update(ns='bi', sel=name)
+                elif name == 'mod':
+                    c.update(ns='bi', sel='mod')
+                else:
+                    c.update(ns='operator', sel=name)
+            elif c['via'] == 'meth':
+                row = by_method[c['name']]
+                if row['sel'] in self.RANDOM_OPS or row['sel'] == 'urshift':
+                    continue
+                if len(c['args']) - 1 != len(row['params']) or row['passes'] != row['params']:
+                    continue          # numeric cases pass every parameter explicitly
+                c.update(ns=row['ns'], sel=row['sel'], hook=row['hook'])
+            else:
+                c.update(ns='bi', sel=c['name'], kind=kinds[c['name']])
+            c['args'] = [self.numeric_of(rng, a) for a in c['args']]
+            c['numeric'] = True
+            c['x0'] = fnum(rng.choice([0, 1, 2, 3, -1, 0.5, 2.5]), False)
+            return c
+        return None
+
     def gen(self, rng, n):
         if not getattr(self, 'index', None):
             err, res = py2lean.generate('C15', str(common.REPO), write=False)
             self.index = res['index'] if res else {'exec': {}, 'real': {}}
-        return [self.gen_kernel(rng) for _ in range(n)]
+        cases = []
+        for _ in range(n):
+            r = rng.random()
+            if r < 0.55:
+                cases.append(self.gen_kernel(rng))
+            elif r < 0.8:
+                cases.append(self.gen_lift(rng))
+            else:
+                c = self.gen_lift_numeric(rng)
+                cases.append(c if c else self.gen_kernel(rng))
+        return cases
 
     # ------------------------------------------------------------------ runners
     def impl(self, cases):
@@ -230,12 +430,25 @@ class Check(common.Check):
         for c in cases:
             if 'k' in c:
                 lines.append('k ' + c['k'] + ' ' + ' '.join(c['a']))
+            elif c.get('numeric'):
+                lines.append('reset')
             else:
-                lines.append('l ' + c['line'])
+                lines.append('l ' + json.dumps(c))
         out, err = common.run_driver('Sc3Verif/C15/Driver.lean', lines)
         if out is None:
             raise RuntimeError('driver failed: ' + err)
-        return [{'r': o} if 'k' in c else {'t': o} for c, o in zip(cases, out)]
+        res = []
+        for c, o in zip(cases, out):
+            if 'k' in c:
+                res.append({'r': o})
+            elif c.get('numeric'):
+                res.append({})
+            else:
+                try:
+                    res.append({'t': json.loads(o)})
+                except ValueError:
+                    raise RuntimeError(f'driver output is not JSON: {o!r}')
+        return res
 
     def compare(self, case, io, mo):
         if 'k' in case:
@@ -250,12 +463,40 @@ class Check(common.Check):
             if va is not None and vb is not None and a[0] == b[0] == 'f' and Fraction(float(vb)) == va:
                 return None                 # the float result is the correctly rounded exact rational
             return {'impl': a, 'model': b}
-        return super().compare(case, io, mo)
+        if case.get('numeric'):
+            return None
+        if 'E:unmodelled' in json.dumps(mo.get('t')):
+            return None                     # operand combination outside the lifting model
+        if case.get('name') == 'not_' or case.get('sel') == 'not_':
+            return None                     # `not x` cannot be observed on a symbolic leaf (numeric oracle only)
+
+        def first_error(t):
+            if isinstance(t, str):
+                return t if t.startswith('E:') else None
+            for i in t:
+                e = first_error(i)
+                if e:
+                    return e
+            return None
+        m = first_error(mo.get('t')) or mo.get('t')      # an exception anywhere aborts the whole operation
+        if common.canon(io.get('t')) == common.canon(m):
+            return None
+        return {'impl': io.get('t'), 'model': m}
 
     # ------------------------------------------------------------------ oracle: the laws
     def oracle(self, case, out):
         if 'k' in case:
             return self.kernel_oracle(case, out)
+        if case.get('numeric'):
+            lf, dr = out.get('lifted'), out.get('direct')
+            both_raise = isinstance(lf, str) and isinstance(dr, str) and lf[:2] == dr[:2] == 'E:'
+            if lf != dr and not both_raise:     # which exception comes first depends on evaluation order
+                sel = case.get('sel')
+                kinds = '/'.join(a[0] for a in case['args'])
+                return {'what': f"{case['via']} {case['name']} on {kinds}: evaluating the lifted object gives "
+                                f"{json.dumps(out.get('lifted'))}, applying `{sel}` to the evaluated operands "
+                                f"gives {json.dumps(out.get('direct'))}",
+                        'signature': f"lift:{case['via']}:{'narop' if case.get('hook') == '_compose_narop' or case.get('kind') == 'narop' else 'op'}"}
         return None
 
     def kernel_oracle(self, case, out):
